@@ -531,7 +531,10 @@ class CtlWriter:
             write_line('{} {}{} {}'.format(ctl, addr_str, lengths, comment).rstrip())
         else:
             # Remove redundant trailing blank lines
-            min_comments = min(len(instructions) - 1, 1)
+            if ctl == 'M':
+                min_comments = 1
+            else:
+                min_comments = min(len(instructions) - 1, 1)
             while len(comment) > min_comments and comment[-1] == ['']:
                 comment.pop()
             self._write_lines(comment, ctl, addr_str + lengths, True)
